@@ -596,6 +596,21 @@ func (r *rw) entryHooks(file *ast.File) {
 					recvType = id.Name
 				}
 			}
+			if recvType == "" && v.Name.Name == "newTrzszBuffer" && r.fname == "buffer.go" {
+				// tuning knob: the capacity of the queue of received reads
+				ast.Inspect(v.Body, func(n ast.Node) bool {
+					if ce, ok := n.(*ast.CallExpr); ok && len(ce.Args) == 2 {
+						if id, ok := ce.Fun.(*ast.Ident); ok && id.Name == "make" {
+							if bl, ok := ce.Args[1].(*ast.BasicLit); ok && bl.Value == "10000" {
+								ce.Args[1] = parseStmt("_ = verifsim.BufQueueCap()").(*ast.AssignStmt).Rhs[0]
+								r.used = true
+								r.stats["hook:bufQueueCap"]++
+							}
+						}
+					}
+					return true
+				})
+			}
 			var hook ast.Stmt
 			switch {
 			case recvType == "" && v.Name.Name == "isWindowsEnvironment" && r.fname == "comm.go":
